@@ -260,8 +260,14 @@ func (r *Runner) Run() int {
 			if isKnown {
 				continue
 			}
+			if status == "not-reproduced" && strings.HasPrefix(v.Label, "monitor:") {
+				// lock-discipline monitors observe which lock is held at each heap access on the
+				// path the executor followed through the real SSA; a single-threaded native run
+				// cannot observe that, so these are reported on the executor's evidence alone.
+				status = "monitor-only"
+			}
 			switch status {
-			case "reproduced", "skipped":
+			case "reproduced", "skipped", "monitor-only":
 				fmt.Printf("VIOLATION property=%s replay=%s\n", c.ID, path)
 				fmt.Printf("  %s %s at %s (%d paths) inputs=%s replay=%s %s\n", res.Spec.Name, v.Label, v.Where, len(vs), compactJSON(v.Inputs), status, detail)
 				exit = 1
@@ -479,9 +485,11 @@ func runNative(repo, verif, pkg, fn, vector string) (string, error) {
 			repl[filepath.Join(repo, sub, filepath.Base(f))] = f
 		}
 	}
-	// model clock: compile copies of the repository files in which the clock
-	// calls are renamed to the harness clock (generated from the current source)
-	if pkg == "client" {
+	// model clock and counting mutexes: compile temporary copies of the package's
+	// repository files (generated from the current source) in which the clock
+	// calls go to the harness clock and sync.Mutex / sync.RWMutex are the
+	// harness's counting wrappers.
+	{
 		files, _ := filepath.Glob(filepath.Join(repo, pkg, "*.go"))
 		for i, f := range files {
 			if strings.HasSuffix(f, "_test.go") {
@@ -495,14 +503,22 @@ func runNative(repo, verif, pkg, fn, vector string) (string, error) {
 				continue
 			}
 			src := string(b)
-			ns := strings.NewReplacer("time.Now()", "vNow()", "time.After(", "vAfter(", "time.Since(", "vSince(").Replace(src)
+			ns := src
+			if pkg == "client" {
+				ns = strings.NewReplacer("time.Now()", "vNow()", "time.After(", "vAfter(", "time.Since(", "vSince(").Replace(ns)
+			}
+			ns = strings.NewReplacer("sync.RWMutex", "RWMutex", "sync.Mutex", "Mutex").Replace(ns)
 			if ns == src {
 				continue
 			}
 			if !strings.Contains(ns, "time.") {
 				ns = strings.Replace(ns, "\t\"time\"\n", "", 1)
 			}
-			tf := filepath.Join(tmp, fmt.Sprintf("clock_%d_%s", i, filepath.Base(f)))
+			if !strings.Contains(ns, "sync.") {
+				ns = strings.Replace(ns, "\t\"sync\"\n", "", 1)
+				ns = strings.Replace(ns, "\n\t\"sync\"\n", "\n", 1)
+			}
+			tf := filepath.Join(tmp, fmt.Sprintf("copy_%d_%s", i, filepath.Base(f)))
 			os.WriteFile(tf, []byte(ns), 0o644)
 			repl[f] = tf
 		}
@@ -544,7 +560,7 @@ func TestVerifReplay(t *testing.T) {
 	ob, _ := json.Marshal(map[string]interface{}{"Replace": repl})
 	of := filepath.Join(tmp, "overlay.json")
 	os.WriteFile(of, ob, 0o644)
-	cmd := exec.Command("timeout", "300", "go", "test", "-tags", "verif", "-vet=off", "-count=1", "-v", "-overlay", of, "-run", "^TestVerifReplay$", "./"+pkg)
+	cmd := exec.Command("timeout", "300", "go", "test", "-tags", "verif,verifreplay", "-vet=off", "-count=1", "-v", "-overlay", of, "-run", "^TestVerifReplay$", "./"+pkg)
 	cmd.Dir = repo
 	cmd.Env = append(os.Environ(), "GOFLAGS=-mod=mod", "GOPROXY=off", "GOSUMDB=off", "GOTOOLCHAIN=local", "VERIF_REPLAY="+vector)
 	out, err := cmd.CombinedOutput()
